@@ -26,7 +26,14 @@ fn privkey(req: &Value) -> R {
         None => key,
     };
     let pk = key.to_public_key().map_err(lib)?;
+    // same object family: derive the public key, then flip the compression flag and derive again (and back)
+    let flipped = key.compress_public_key(!pk.is_compressed());
+    let pk_flipped = flipped.to_public_key().map_err(lib)?;
+    let back = flipped.compress_public_key(pk.is_compressed());
+    let pk_back = back.to_public_key().map_err(lib)?;
     Ok(json!({
+        "flipped": {"pub": h(&pk_flipped.to_bytes().map_err(lib)?), "wif": flipped.to_wif().map_err(lib)?, "point": h(&flipped.get_point())},
+        "back": {"pub": h(&pk_back.to_bytes().map_err(lib)?), "wif": back.to_wif().map_err(lib)?},
         "wif": key.to_wif().map_err(lib)?,
         "bytes": h(&key.to_bytes()),
         "hex_eq": key.to_hex() == hex::encode(key.to_bytes()),
